@@ -61,6 +61,7 @@ VERUS_TRUSTED = [
     "assumed: <usize as Into<usize>>::into is the identity (one external_body axiom; vstd has no spec for that instance)",
     "assumed contracts of inc_addr and separate_bytes inside Verus units; both are discharged by Kani units l0_inc_addr / l0_separate_bytes",
     "assumed (prelude): documented meaning of u8/u16/u32::overflowing_add/sub, u16::swap_bytes, i8/i16::wrapping_neg (std functions without a vstd specification; used by no function on the pinned tree)",
+    "assumed (prelude): str::trim_end / trim_start return an UNINTERPRETED function of the text (used by no function on the pinned tree): code that starts to use them is verified with nothing known about the result",
     "extractor rewrites R1-R6 (tuple-pattern parameters, ghost output log for print!, opaque format!, quantified stdin, attributes dropped, named ghost loop iterator)",
 ]
 
